@@ -15,8 +15,12 @@ REPS = {
     "date": ("date", [("date '1999-12-31'", 1), ("date '2000-02-29'", 2), ("date '2000-02-29'", 2), ("date '2000-03-01'", 3),
                       ("date '2024-01-01'", 4)]),
     # field-wise (months, days, milliseconds): 30 days < 1 month; 12 months and 1 year are the same value
-    "interval": ("interval", [("interval '1' day", 1), ("interval '30' day", 2), ("interval '1' month", 3),
-                              ("interval '1' year", 4), ("interval '12' month", 4), ("interval '1' day", 1)]),
+    # (a sub-day part of 24 hours or more stays in the milliseconds field: 30 hours < 1 day field-wise)
+    "interval": ("interval", [("cast('-25 hours' as interval)", 1), ("cast('6 hours' as interval)", 2),
+                              ("cast('30 hours' as interval)", 3), ("interval '1' day", 4),
+                              ("cast('1 day 47 hours 59 minutes' as interval)", 5), ("interval '30' day", 6),
+                              ("interval '1' month", 7), ("interval '1' year", 8), ("interval '12' month", 8),
+                              ("interval '1' day", 4)]),
 }
 
 
